@@ -17,6 +17,7 @@ Definition kids_match (sp : spec) (ph : phase) (kids : list node) : Prop :=
       | SList _ cs => map nspec kids = cs
       | SSeq cs => map nspec kids = firstn (length kids) cs /\ length kids <= length cs /\ seq_prefix_ok kids
       | SCatch c => map nspec kids = [c]
+      | SAll cs => map nspec kids = cs
       end
   end.
 
@@ -103,7 +104,7 @@ Qed.
 Lemma recombine_WF sp kids :
   Forall WF kids -> kids_match sp PEval kids -> WF (recombine (Node sp PEval kids)).
 Proof.
-  intros HW HM. destruct sp as [z|e|p cs|cs|c]; simpl in HM; simpl.
+  intros HW HM. destruct sp as [z|e|p cs|cs|c|cs]; simpl in HM; simpl.
   - constructor; auto; simpl; auto. discriminate.
   - constructor; auto; simpl; auto. discriminate.
   - (* list *)
@@ -174,4 +175,28 @@ Proof.
     + constructor; auto; simpl; auto. discriminate.
     + constructor; auto; [simpl; auto|]. intros o [= <-]. apply adm_catch_ok. apply WF_done; auto.
     + constructor; auto; [simpl; auto|]. intros o [= <-]. apply adm_catch_ko. apply WF_done; auto.
+  - (* catch_all: every child is done; the first error by position surfaces *)
+    destruct (forallb kid_done kids) eqn:Ed; [|constructor; auto; discriminate].
+    destruct (first_ko kids) as [e|] eqn:Ek.
+    + destruct (first_ko_some _ _ Ek) as (i & k & Hn & Hp & Hbefore).
+      constructor; auto. intros o [= <-].
+      pose proof (split_nth kids i k Hn) as Hsplit.
+      assert (Hok : exists vs, Forall2 (fun k v => nphase k = PDone (Ok v)) (firstn i kids) vs).
+      { apply all_done_ok_list. intros j kj Hj.
+        assert (Hji : j < i).
+        { assert (j < length (firstn i kids)) by (apply nth_error_Some; congruence). rewrite firstn_length in H. lia. }
+        rewrite nth_error_firstn_lt in Hj by assumption.
+        pose proof (Hbefore j kj Hji Hj) as Hnk.
+        rewrite forallb_forall in Ed. pose proof (Ed kj (nth_error_In _ _ Hj)) as Hd.
+        unfold kid_done in Hd. unfold kid_ko in Hnk. destruct (nphase kj) as [| | |[v|e0]]; try discriminate. eauto. }
+      destruct Hok as (vs & Hvs).
+      apply (adm_all_ko cs (map nspec (firstn i kids)) (nspec k) (map nspec (skipn (S i) kids)) vs e).
+      * rewrite <- HM. rewrite Hsplit at 1. rewrite map_app. reflexivity.
+      * apply Forall2_adm_of_kids; auto. rewrite Forall_forall in *. intros x Hx. apply HW.
+        rewrite Hsplit. apply in_or_app. now left.
+      * apply WF_done; auto. rewrite Forall_forall in HW. apply HW. eapply nth_error_In; eauto.
+    + destruct (all_ok kids) as [vs|] eqn:Ea.
+      * constructor; auto. intros o [= <-]. apply adm_all_ok. rewrite <- HM.
+        apply Forall2_adm_of_kids; auto. now apply all_ok_some.
+      * constructor; auto. discriminate.
 Qed.
